@@ -6,7 +6,7 @@ use strum_macros::Display;
 
 use crate::context::Context;
 
-use std::fmt;
+use std::{cell::Cell, fmt};
 
 /// Assembly uses constant expressions to avoid copying magic numbers around.
 /// Expr represents these constant expressions.
@@ -38,6 +38,8 @@ impl fmt::Display for Expr {
 
 /// Deepest chain of nested sub-expressions and symbol definitions that is evaluated
 const MAX_EVALUATION_DEPTH: usize = 1000;
+/// Most sub-expressions (counting those of the symbols it names) one evaluation may visit
+const MAX_EVALUATION_STEPS: usize = 1_000_000;
 
 impl Expr {
     pub fn binary(left: Expr, operator: BinaryOperator, right: Expr) -> Expr {
@@ -113,14 +115,28 @@ impl Expr {
     }
 
     pub fn run(&self, constants: &dyn Context) -> Result<i64, ExprRunError> {
-        self.run_nested(constants, 0)
+        self.run_nested(constants, 0, &Cell::new(0))
     }
 
     /// Evaluation is recursive, also through the symbols an expression names: a symbol that is
     /// defined through itself (or an absurdly deep expression) must not exhaust the stack
-    fn run_nested(&self, constants: &dyn Context, depth: usize) -> Result<i64, ExprRunError> {
+    fn run_nested(
+        &self,
+        constants: &dyn Context,
+        depth: usize,
+        steps: &Cell<usize>,
+    ) -> Result<i64, ExprRunError> {
         #[cfg(feature = "verif")]
         let _verif_depth = crate::verif::depth_guard();
+        // symbols keep their defining expression, so `.equ b = a + a`, `.equ c = b + b`, ... doubles
+        // the work with every line: bound the work of one evaluation
+        steps.set(steps.get() + 1);
+        if steps.get() > MAX_EVALUATION_STEPS {
+            return Err(ExprRunError::ArithmeticError(format!(
+                "expression needs more than {} evaluation steps",
+                MAX_EVALUATION_STEPS
+            )));
+        }
         if depth > MAX_EVALUATION_DEPTH {
             return Err(ExprRunError::ArithmeticError(format!(
                 "expression is nested deeper than {} levels or defined through itself",
@@ -131,13 +147,13 @@ impl Expr {
             Expr::Ident(ident) => match constants.get_expr(ident) {
                 Some(Expr::Const(address)) => Ok(address),
                 // TODO: check recursion for cross linked equs and other labels
-                Some(expr) => expr.run_nested(constants, depth + 1),
+                Some(expr) => expr.run_nested(constants, depth + 1, steps),
                 None => Err(ExprRunError::MissingIdentifier(ident.clone())),
             },
             Expr::Const(value) => Ok(*value),
             Expr::Func(ident, argument) => {
                 if let Expr::Ident(name) = &**ident {
-                    let value = argument.run_nested(constants, depth + 1)?;
+                    let value = argument.run_nested(constants, depth + 1, steps)?;
                     let ret_val = match name.to_lowercase().as_str() {
                         "low" => (value as u64 & 0xff) as i64,
                         "high" | "byte2" => ((value as u64 & 0xff00) >> 8) as i64,
@@ -176,8 +192,8 @@ impl Expr {
                 }
             }
             Expr::Binary(binary) => {
-                let left = binary.left.run_nested(constants, depth + 1)?;
-                let right = binary.right.run_nested(constants, depth + 1)?;
+                let left = binary.left.run_nested(constants, depth + 1, steps)?;
+                let right = binary.right.run_nested(constants, depth + 1, steps)?;
                 match binary.operator {
                     BinaryOperator::Add => match left.checked_add(right) {
                         Some(value) => Ok(value),
@@ -257,7 +273,7 @@ impl Expr {
             }
             Expr::Unary(unary) => match unary.operator {
                 UnaryOperator::Minus => {
-                    let value = unary.expr.run_nested(constants, depth + 1)?;
+                    let value = unary.expr.run_nested(constants, depth + 1, steps)?;
                     match value.checked_neg() {
                         Some(value) => Ok(value),
                         None => Err(ExprRunError::ArithmeticError(format!(
@@ -267,11 +283,11 @@ impl Expr {
                     }
                 }
                 UnaryOperator::BitwiseNot => {
-                    let value = unary.expr.run_nested(constants, depth + 1)?;
+                    let value = unary.expr.run_nested(constants, depth + 1, steps)?;
                     Ok(!value)
                 }
                 UnaryOperator::LogicalNot => {
-                    let value = unary.expr.run_nested(constants, depth + 1)?;
+                    let value = unary.expr.run_nested(constants, depth + 1, steps)?;
                     Ok((value == 0) as i64)
                 }
             },
